@@ -118,3 +118,60 @@ pub fn driver_replay(spec: &Value, out_path: &std::path::Path) {
         }
     }
 }
+
+
+// ---------------------------------------------------------------------------------------------- formatter round trip (C16)
+fn fmt_cfg(width: usize, indent: isize) -> printer::PrintCfg {
+    printer::PrintCfg { width, allow_linebreaks: true, latex: false, omit_decl_sep: false, indent }
+}
+fn render(p: &fun::syntax::program::Program, width: usize, indent: isize) -> String {
+    let mut buf = Vec::new();
+    p.print_io(&fmt_cfg(width, indent), &mut buf).expect("print");
+    String::from_utf8_lossy(&buf).to_string()
+}
+fn nonblank(s: &str) -> String {
+    s.chars().filter(|c| !c.is_whitespace()).collect()
+}
+
+/// For every source and every (width, indent): print the parsed tree, parse the text again, compare the trees
+/// (positions are not part of the dump), print again (fixpoint) and compare the non-blank characters with the
+/// reference rendering (width 10000).  One JSON line per source.
+pub fn fmt_roundtrip(spec: &Value, out_path: &std::path::Path) {
+    let configs: Vec<(usize, isize)> = spec["configs"].as_array().unwrap().iter()
+        .map(|c| (c[0].as_u64().unwrap() as usize, c[1].as_i64().unwrap() as isize)).collect();
+    let mut out = std::io::BufWriter::new(std::fs::File::create(out_path).unwrap());
+    for src in spec["sources"].as_array().unwrap() {
+        let name = src["name"].as_str().unwrap();
+        let text = src["src"].as_str().unwrap();
+        let r = catch_unwind(AssertUnwindSafe(|| -> Value {
+            let parsed = match fun::parser::parse_module(text) {
+                Ok(p) => p,
+                Err(e) => return json!({"name": name, "parse": format!("{e:?}"), "records": []}),
+            };
+            let tree0 = crate::ser_parsed::prog_json(&parsed).to_string();
+            let reference = nonblank(&render(&parsed, 10000, 4));
+            let mut recs = vec![];
+            for (w, i) in &configs {
+                let t1 = render(&parsed, *w, *i);
+                let (reparse, tree_equal, fixpoint) = match fun::parser::parse_module(&t1) {
+                    Ok(p2) => {
+                        let same = crate::ser_parsed::prog_json(&p2).to_string() == tree0;
+                        let t2 = render(&p2, *w, *i);
+                        (true, same, t2 == t1)
+                    }
+                    Err(_) => (false, false, false),
+                };
+                let nb = nonblank(&t1) == reference;
+                let bad = !(reparse && tree_equal && fixpoint && nb);
+                recs.push(json!({"w": w, "i": i, "reparse": reparse, "tree": tree_equal, "fix": fixpoint, "nonblank": nb,
+                                 "text": if bad { t1 } else { String::new() }}));
+            }
+            json!({"name": name, "parse": "ok", "records": recs, "treehash": hash_str(&tree0)})
+        }));
+        let v = match r {
+            Ok(v) => v,
+            Err(e) => json!({"name": name, "parse": format!("panic: {}", panic_msg(e)), "records": []}),
+        };
+        writeln!(out, "{v}").unwrap();
+    }
+}
